@@ -201,7 +201,7 @@ def hostile_evaluation(ctx, case):
 ALPHABET = ['[', ']', '(', ')', ',', '!', '.', ':', '=', '@', '#', '"', '*', ' ', 'a', '5', 'n', '~', '-', 'é', '\x1b', '\\', '\t', '0', 'x', 'e', '+']
 
 
-CORE = ['(', ')', '[', ']', ',', '!', '=', '"', 'a', '0', 'x', '.', ':', '@']      # the structural core of the matcher alphabet, for one symbol more
+CORE = ['(', ')', '[', ']', ',', '!', '=', '"', 'a', '0', 'x', '.', ':', '@', '\\']      # the structural core of the matcher alphabet, for one symbol more
 
 
 def argument_texts(ctx, case):
@@ -543,6 +543,16 @@ def short_texts(ctx, case):
         from core import wl
         msg = wl.message.MockMessage(0.0, wl.object.MockObject(None, 0.0, 5, 0, 'a'), True, 'a', (wl.Arg.Int(5), wl.Arg.Null(None)))
         ctx.check('and evaluates', s.matches(msg) in (True, False) and m.matches(msg) in (True, False))
+    # the same text in every syntactic position a matcher has: as argument list, inside a quoted string, as argument value, in brackets, as object,
+    # as message name, after a connection name, before `@`
+    for tpl in ('(%s)', '("%s")', '(x=%s)', '(x="%s", 5)', '[%s]', '%s.a', 'a.%s', 'A:%s', '%s@', 'a@5.b(%s)', '! %s'):
+        try:
+            m2 = matcher.parse(tpl % text)
+            str(m2); str(m2.simplify())
+            ok = True
+        except RuntimeError:
+            ok = True
+        ctx.check('`%s` with the text in place is accepted (and prints) or rejected with a diagnostic' % tpl, ok)
     if not getattr(short_texts, '_w', None):
         short_texts._w = ctl.make_world(None, 1, show_stub=False)
         # a burst: several messages carrying the same time stamp, then one later
